@@ -177,14 +177,13 @@ end fields
 
 theorem initRaft_static {c : Config} {voters : List Id} {trk : ProgressMap} {d : Nat} {rest : List Nat} {n : Nat}
     (hid : c.id = n) (hnz : c.id ≠ 0) (hmem : n ∈ voters)
-    (hpv : c.preVote = false) (hcq : c.checkQuorum = false)
+    (hpv : c.preVote = false)
     (hk : ∀ v, v ∈ voters ↔ (mapGet trk v).isSome = true)
     (hl : ∀ v pr, mapGet trk v = some pr → pr.isLearner = false) :
     RaftStatic voters n (initRaft c voters trk d rest) where
   id := (cfgFill_id c).trans hid
   idnz := hid ▸ hnz
   pv := (cfgFill_fields c).2.1.trans hpv
-  cq := (cfgFill_fields c).2.2.trans hcq
   xfer := rfl
   pri := rfl
   ro := rfl
@@ -241,7 +240,7 @@ For a concrete list both are discharged by `decide`. -/
 theorem init_nodeInv {val : Val} {voters : List Id} {n : Nat} {c : Config} {draws : List Nat} {rn : RawNode}
     (hid : c.id = n) (hmem : n ∈ voters) (hnd : voters.Nodup)
     (hsorted : voters.Pairwise (· < ·)) (h0 : 0 ∉ voters)
-    (hpv : c.preVote = false) (hcq : c.checkQuorum = false) (hasync : c.asyncStorageWrites = false)
+    (hpv : c.preVote = false) (hasync : c.asyncStorageWrites = false)
     (happ : c.applied = 0)
     (h : RawNode.new c (initStorage voters) draws = .ok rn) :
     NodeInv val voters n rn ({} : Spec.Node) [] ∧ AuxInv n rn.raft := by
@@ -251,7 +250,7 @@ theorem init_nodeInv {val : Val} {voters : List Id} {n : Nat} {c : Config} {draw
   subst h
   obtain ⟨hnz, trk, d, rest, hd, hr', hk, hl⟩ := newRaft_init hsorted h0 happ hr
   subst hr'
-  exact ⟨⟨hasync, rfl, initRaft_inv val (initRaft_static hid hnz hmem hpv hcq hk hl)⟩,
+  exact ⟨⟨hasync, rfl, initRaft_inv val (initRaft_static hid hnz hmem hpv hk hl)⟩,
     initRaft_aux c voters trk d rest n⟩
 
 /-- the concrete three-node cluster -/
@@ -259,7 +258,7 @@ example (val : Val) (n d : Nat) (hn : n ∈ [1, 2, 3]) (rn : RawNode)
     (h : RawNode.new { id := n, electionTick := 10, heartbeatTick := 1, maxInflightMsgs := 256 }
       (initStorage [1, 2, 3]) [d] = .ok rn) :
     NodeInv val [1, 2, 3] n rn ({} : Spec.Node) [] ∧ AuxInv n rn.raft :=
-  init_nodeInv rfl hn (by decide) (by decide) (by decide) rfl rfl rfl rfl h
+  init_nodeInv rfl hn (by decide) (by decide) (by decide) rfl rfl rfl h
 
 /-! ### non-vacuity: the construction succeeds -/
 
